@@ -60,6 +60,7 @@ type Unit struct {
 	GoMaxProcs int               `json:"gomaxprocs"`
 	Tiers      []string          `json:"tiers"` // tiers in which the unit runs (default both)
 	MemGB      int               `json:"mem_gb"`
+	Test       string            `json:"test"` // entry test function (default TestVerif)
 }
 
 type Harness struct {
@@ -391,7 +392,11 @@ func runShard(j shardJob, tier string, seed int, verbose bool) (string, error) {
 		mem = 8
 	}
 	hard := budget*3 + 120
-	args := []string{"-test.run", "^TestVerif$", "-test.timeout", "0", "-test.count", "1"}
+	entry := u.Test
+	if entry == "" {
+		entry = "TestVerif"
+	}
+	args := []string{"-test.run", "'^" + entry + "$'", "-test.timeout", "0", "-test.count", "1"}
 	if verbose {
 		args = append(args, "-test.v")
 	}
